@@ -188,6 +188,16 @@ NAMED = {
     'AnyHebrewLetter': norm([(0x590, 0x5FF)]),
     'AnyKoreanLetter': norm([(0x3131, 0x314E), (0xAC00, 0xD7A3)]),
 }
+# classes documented only by a name ("the Greek alphabet"): (must-match, may-match) bounds instead of one set
+LOOSE = {
+    'AnyGermanLetter': (union(LETTER, from_chars('äöüßÄÖÜ')), union(LETTER, from_chars('äöüßÄÖÜẞ'))),
+    'AnyGreekLetter': (norm([(0x386, 0x386), (0x391, 0x3A1), (0x3A3, 0x3A9), (0x3B1, 0x3C9)]),
+                       norm([(0x370, 0x386), (0x388, 0x3FF), (0x1F00, 0x1FFF)])),
+    'AnyCyrillicLetter': (norm([(0x401, 0x401), (0x410, 0x44F), (0x451, 0x451)]), norm([(0x400, 0x52F)])),
+    'AnyKoreanLetter': (norm([(0x3131, 0x314E), (0xAC00, 0xD7A3)]),
+                        norm([(0x1100, 0x11FF), (0x3130, 0x318F), (0xAC00, 0xD7AF)])),
+    'AnyCJK': (norm([(0x4E00, 0x9FD5)]), norm([(0x4E00, 0x9FFF)])),
+}
 WORD = norm([_r('a', 'z'), _r('A', 'Z'), _r('0', '9'), _r('_', '_')])
 # classes documented in terms of a shorthand: Unicode extras are unspecified for them
 SHORTHAND_NAMED = {'AnyDigit', 'AnyWhitespace', 'AnyButDigit', 'AnyButWhitespace'}
@@ -261,9 +271,19 @@ def _check_ctor_arg(arg):
     raise ValueError(arg)
 
 
-def model(e):
-    """Return Val, or raise Raises(names) / Unspecified."""
+def model(e, leaf_set=None):
+    """Return Val, or raise Raises(names) / Unspecified.
+
+    leaf_set: optional function(constructor-expression) -> interval set written between the brackets, used
+    instead of the documented set (C07 measures its leaves, so that it tests the algebra and nothing else).
+    """
     k = e[0]
+    if leaf_set is not None and k in ('from', 'butfrom', 'between', 'butbetween', 'named', 'word', 'butword'):
+        v = model(e)
+        if not v.is_any:
+            v.inner, uses_shorthand = leaf_set(e, v.negated)
+            v.shorthand = v.shorthand or uses_shorthand
+        return v
     if k in ('from', 'butfrom'):
         if len(e[1]) == 0:
             raise Raises(['NotEnoughArgumentsException'])
@@ -287,7 +307,7 @@ def model(e):
     if k == 'butword':
         return Val(True, WORD, global_word=bool(e[1]), shorthand=True)
     if k == 'inv':
-        v = model(e[1])
+        v = model(e[1], leaf_set)
         if v.is_any:
             raise Raises(['CannotBeNegatedException'])
         # ~ of AnyWordChar(is_global) stays an (AnyBut)WordChar(is_global)
@@ -299,7 +319,7 @@ def model(e):
             if side[0] in ('c', 't', 's', 'p'):
                 xs.append(side)
             else:
-                xs.append(model(side))
+                xs.append(model(side, leaf_set))
         if not isinstance(xs[0], Val) and not isinstance(xs[1], Val):
             raise ValueError('class operator without a class operand')
         cls = xs[0] if isinstance(xs[0], Val) else xs[1]
@@ -326,6 +346,16 @@ def model(e):
         if a.global_word:
             raise Raises(['GlobalWordCharSubtractionException'])
         rest = diff(a.inner, b.inner)
+        if sh:
+            # code points that only the Unicode-aware shorthands add are unspecified: the result is certainly
+            # non-empty when something outside that region is left, certainly empty when nothing is left and the
+            # minuend has nothing inside the region, and undetermined otherwise
+            u = unicode_shorthand_extras()
+            if not diff(rest, u):
+                if intersect(a.inner, u):
+                    raise Unspecified('emptiness depends on Unicode-only members of a shorthand class')
+                raise Raises(['EmptyClassException'])
+            return Val(a.negated, rest, shorthand=sh)
         if not rest:
             raise Raises(['EmptyClassException'])
         return Val(a.negated, rest, shorthand=sh)
